@@ -42,3 +42,6 @@ func (a *Audio) VerifChans() (chan float32, chan float32) { return a.l, a.r }
 func (a *Audio) VerifCh3On() bool { return a.ch3.enabled }
 
 func (a *Audio) VerifTicks() uint64 { return a.ticks }
+
+// wave RAM is reachable by the CPU while channel 3 plays only just after the channel fetched a sample
+func (a *Audio) VerifWaveAccessible() bool { return a.ch3.sampleTimer < 4 }
